@@ -142,9 +142,22 @@ def gen_circuit(rng, nq, classical):
         qc.rz(Parameter("zz_id"), 0)
         ps.append((_ID[0] % 5000) * 1e-4 + 1e-5)
         return qc, ps
-    if rng.random() < 0.5:
+    r = rng.random()
+    if r < 0.4:
         x = EVQEIndividual.random_individual(nq, rng.randint(1, 2), True, rng.randrange(2**31))
         return x.get_parameterized_quantum_circuit(), [float(v) for v in x.get_parameter_values()]
+    if r < 0.6:
+        # a ParameterVector with more than ten elements: Qiskit orders its elements by index (t[2] before t[10]), not by name
+        from qiskit.circuit import ParameterVector
+
+        k = rng.randint(11, 14)
+        tv = ParameterVector("t", k)
+        qc = QuantumCircuit(nq)
+        for j in range(k):
+            (qc.ry if j % 2 == 0 else qc.rz)(tv[j], j % nq)
+            if j % nq == nq - 1 and nq > 1:
+                qc.cx(0, nq - 1)
+        return qc, [rng.uniform(0, 2 * np.pi) for _ in range(k)]
     qc = QuantumCircuit(nq)
     ps = []
     for q in range(nq):
